@@ -230,7 +230,7 @@ func (c *c10Run) acctDB(n int) {
 			}
 			if k == written {
 				raw := db.VerifRawAccount(unhexOr(k))
-				exp := c10Expect(renderAcct(y), err, false, 0, true)
+				exp := "err"
 				if err == nil {
 					// `re` as the model computes it: re-encoding of the decoded
 					// value equals the stored bytes
@@ -424,33 +424,33 @@ func runC10(r *Run) {
 
 	for i := 0; i < r.N; {
 		switch x := r.Rng.Intn(100); {
-		case x < 30:
+		case x < 22:
 			c.acctDirect(c.g.acct(), "direct")
 			i++
-		case x < 38:
+		case x < 28:
 			c.txDirect(c.g.tx())
 			i++
-		case x < 52:
+		case x < 40:
 			n := 4 + r.Rng.Intn(8)
 			c.acctDB(n)
 			i += n
-		case x < 80:
+		case x < 64:
 			n := 4 + r.Rng.Intn(8)
 			c.orderDB(n)
 			i += n
-		case x < 84:
+		case x < 71:
 			c.orderMalformed()
 			i++
-		case x < 88:
+		case x < 78:
 			c.snapDirect(c.g.snap(), "direct")
 			i += 3
-		case x < 90:
+		case x < 82:
 			c.snapDB()
 			i += 5
-		case x < 91:
+		case x < 84:
 			c.snapMalformed()
 			i++
-		case x < 92:
+		case x < 96:
 			c.acctMalformed()
 			i++
 		default:
